@@ -1441,13 +1441,18 @@ def grammar_shard(shard, nshards, seed, tier):
     return st_
 
 
+#: forms in which a violation found on a long-lived application is re-tried on a fresh one: as found; the call plan
+#: run twice; run twice through wsgi.file_wrapper (responses closed by the server); the request overlapping itself
+STANDALONE_VARIANTS = ({}, {'warmup': True}, {'warmup': True, 'fw': True}, {'warmup': True, 'fw': False, 'plan': 'overlap-same'})
+
+
 def standalone_violations(st_):
     """The application object lives for a whole shard, so an answer can depend on requests of earlier cases (memoised
     objects).  Every violation found is therefore re-executed on a fresh application; when it does not reproduce
-    there, the same call plan run twice in a row is tried, and the reported (replayable) case is the form that
+    there, the forms of STANDALONE_VARIANTS are tried, and the reported (replayable) case is the form that
     reproduces stand-alone.  A violation that reproduces in neither form is still reported, and says so."""
     for v in st_.violations:
-        for variant in ({}, {'warmup': True}):
+        for variant in STANDALONE_VARIANTS:
             case = dict(v.case, **variant)
             try:
                 vs = evaluate(case, core.Stats(), apply_exclusions=False)
@@ -1676,7 +1681,7 @@ def fuzz_campaign(seed, stats, workers=None, runs=None):
                 if rec['signature'] in done:
                     continue
                 hit = []
-                for variant in ({}, {'warmup': True}):      # fresh application; then the call plan run twice
+                for variant in STANDALONE_VARIANTS:      # fresh application; then the call plan run twice, ...
                     close_harness()
                     vs = evaluate(dict(rec['case'], **variant), core.Stats(), apply_exclusions=False)
                     hit = [v for v in vs if v.signature == rec['signature']] or vs
